@@ -348,7 +348,8 @@ def operand_args(C, tab, opd, kind, ploidy, track=None):
     if opd["pass"] == "mat":
         m = make_obj(C, st, ploidy)
         if track is not None: track.append((m, raw_state(C, m)))
-        return m, {}
+        # a matrix operand together with explicit label keywords: the keywords take precedence over the matrix' own arrays
+        return m, {f: np_labels(f, labels_from_table(tab, kind, f, ids)) for f, ids in (opd.get("over") or {}).items()}
     arr = np_mat(C, st["mat"], st["shape"])
     kw = {}
     if opd["pass"] == "kw":
@@ -555,6 +556,7 @@ def operand_labels(C, tab, S, kind, opd, opname):
     out = {}
     for f in KINDS[kind]["fields"]:
         given = own[f] if opd["pass"] in ("mat", "kw") else None
+        if opd["pass"] == "mat" and f in (opd.get("over") or {}): given = labels_from_table(tab, kind, f, opd["over"][f])
         have = S["lab"][f] is not None
         if have and given is None:
             if f in KINDS[kind]["fill"]:
@@ -932,7 +934,13 @@ class _Gen:
                 absent = [f for f in KINDS[kind]["fields"] if S["lab"][f] is None]
                 if absent: present[r.choice(absent)] = True; pas = r.choice(["mat", "kw"])
                 elif req: pas = "raw"
-        return {"ents": ents, "present": present, "pass": pas}
+        opd = {"ents": ents, "present": present, "pass": pas}
+        if pas == "mat" and valid and r.random() < 0.3:
+            cand = [f for f in KINDS[kind]["fields"] if S["lab"][f] is not None]
+            if cand:
+                ids2 = self.fresh(kind, k); self.ensure(kind, ids2)
+                opd["over"] = {f: ids2 for f in r.sample(cand, r.randint(1, len(cand)))}
+        return opd
     def del_obj(self, n, valid=True):
         r = self.rng
         if not valid:
@@ -1274,7 +1282,9 @@ def _obj(o):
     raise EmitError(t)
 def _operand(C, tab, opd, kind):
     st = spec_to_state(C, tab, opd)
-    kw = [st[f] if opd["pass"] == "kw" else None for f in KINDS[kind]["fields"]]
+    kw = [st[f] if opd["pass"] == "kw" else
+          (labels_from_table(tab, kind, f, opd["over"][f]) if opd["pass"] == "mat" and f in (opd.get("over") or {}) else None)
+          for f in KINDS[kind]["fields"]]
     return "(mkopd %s %s %s %s %s)" % (E.lst(st["shape"], E.nat), _tensor(st["mat"], len(st["shape"])), _axes(C, st),
                                         E.b(opd["pass"] == "mat"), E.lst(kw, _larr))
 def _hop(C, tab, op, prev):
